@@ -1,2 +1,45 @@
-From Flaxm Require Import Lib.Harness.
-Example C06_placeholder : True. Proof. exact I. Qed.
+(* C06 -- Lifted scan and vmap equal the explicit loop and the per-example stack. *)
+From Flaxm Require Import Lib.Harness Model.NnxFilters Model.NnxLift Model.LinenLoop Proofs.NnxLift Proofs.LinenLoop.
+
+(* nn.scan: for every body that leaves the broadcast collections alone, every assignment of variables to axis /
+   broadcast / carry, length, direction, carry and inputs, the lifted scan IS the unrolled Python loop over sliced
+   variables (axis slices written back at their index, carry threaded, broadcast shared); `unroll` does not occur *)
+Theorem C06_scan_is_loop : forall sa b rev0 vs c0 xs specs,
+  all_specs sa vs = Some specs -> scan_inv specs (map v_val vs) (map v_val vs) ->
+  (forall j, nth_error specs j = Some SNone -> writes b j = false) ->
+  lscan_model sa b rev0 vs c0 xs =
+    (let order := if rev0 then rev (seq 0 (length xs)) else seq 0 (length xs) in
+     let '(cur, c, ys) := loop_ref specs b order xs (map v_val vs, c0) [] in Ok (cur, c, ys_in_order (length xs) ys)).
+Proof. exact lscan_is_loop. Qed.
+Print Assumptions C06_scan_is_loop.
+
+(* a write to a broadcast collection is accepted only if its value is the same for every iteration, input and carry
+   (otherwise the call is rejected) -- so "shared and initialised once" is well defined *)
+Theorem C06_broadcast_prepass_well_defined : forall sa b rev0 vs c0 xs r specs,
+  lscan_model sa b rev0 vs c0 xs = Ok r -> all_specs sa vs = Some specs -> rep_ok specs (map v_val vs) ->
+  forall j i1 i2 x1 x2 c1 c2, nth_error specs j = Some SNone ->
+    nth j (fst (fst (brun b (map (view i1) (map v_val vs)) x1 c1))) [] = nth j (fst (fst (brun b (map (view i2) (map v_val vs)) x2 c2))) [].
+Proof. exact prepass_well_defined. Qed.
+Print Assumptions C06_broadcast_prepass_well_defined.
+
+(* nn.vmap: whenever the call is accepted, what is left in a None-axis collection is the same at every index *)
+Theorem C06_vmap_shared_is_shared : forall sa b vs xs out ys specs,
+  vmap_model sa b vs xs = Ok (out, ys) -> all_specs sa vs = Some specs -> rep_ok specs (map v_val vs) ->
+  forall j i1 i2, nth_error specs j = Some SNone ->
+    nth j (fst (fst (brun b (map (fun v => view i1 (v_val v)) vs) (nth i1 xs 0%Z) 0%Z))) [] =
+    nth j (fst (fst (brun b (map (fun v => view i2 (v_val v)) vs) (nth i2 xs 0%Z) 0%Z))) [].
+Proof. exact vmap_none_index_independent. Qed.
+Print Assumptions C06_vmap_shared_is_shared.
+
+(* F25 inside the model: bc += 1 over three iterations; nn.scan leaves bc + 1 (and every iteration sees bc + 1), the loop bc + 3 *)
+Example C06_broadcast_write_refuted :
+  let sa := [(NEllipsis, SNone)] in
+  let vs := [mkVar (mkLeaf [] [] None 0) (Whole [4%Z])] in
+  let b := mkBody [BAddTo 0 (BConst 1)] (BSum 0) in
+  lscan_model sa b false vs 0%Z [0; 0; 0]%Z = Ok ([Whole [5%Z]], 0%Z, [6; 6; 6]%Z) /\
+  loop_ref [SNone] b [0; 1; 2] [0; 0; 0]%Z ([Whole [4%Z]], 0%Z) [] = ([Whole [7%Z]], 0%Z, [(0, 5%Z); (1, 6%Z); (2, 7%Z)]).
+Proof. vm_compute. split; reflexivity. Qed.
+
+(* NOT proved: the moveaxis / transpose_to_front arithmetic (axis collections are slices in the model), in_axes / out_axes
+   prefix trees, init inside the loop (one slice per iteration, a carry collection cannot be created), split_rngs:
+   decided per run by the correspondence and the loop oracle on the real code. *)
